@@ -303,6 +303,8 @@ var purityUnrelated = []string{"1 + 2 * 3", "'a' + 'b'", "[1, 2, 3]", "len('abc'
 	"crec(x)", "crec(1) + crec(2)", "crec('a', 2)", "[crec(y), fail(1)]", "$x = this, $y = this, toString(this)", "$x = this, $y = [this], 'a' + $y",
 	// every kind of "... expected" error next to each other (their texts come from shared templates); a zero time
 	"a > 1 ? b", "(1", "[1, 2", "x ? y :", "f(1", "a.", "a ? b : c ? d", "millSecond(addDate(t0, 0, 0, 7))", "timeFormat(addDate(t0, 0, 1, 0), '2006-01-02 15:04:05')", "year(t0)",
+	// number literals with separators (the scanner rebuilds their text); builtins that compute on caller-owned numbers
+	"1_000 + x", "2.5e1_0 * 2", "1_0.2_5 + 1_0", "toInt(x) + 1", "abs(x) + floor(x) + ceil(x) + round(x)", "max(x, 1) - min(x, 1)", "-x + x % 2",
 	"regexp('a', 'a')", "regexp('a', '(')", "regexp('ab', '[')", "regexp('ab', 'a.')", "regexp('(', '(')",
 	"\u0663 + 1", "n\u0663 * 2", "\u0301 + 1", "cafe\u0301 + 1", "\u203f", "a\u203f", "\u2118x", "x\u2118", "\u00aa\u00b7", "\u00b7\u00aa"}
 
@@ -378,8 +380,9 @@ func recordPurity(args []string) int {
 	}
 	rng := rand.New(rand.NewSource(*seed))
 	type tgt struct {
-		text string
-		src  *formula.SourceCode
+		text  string
+		src   *formula.SourceCode
+		bytes []byte
 	}
 	var targets []tgt
 	for i := range purityTexts {
@@ -389,6 +392,7 @@ func recordPurity(args []string) int {
 	for _, u := range purityUnrelated {
 		targets = append(targets, tgt{text: u})
 	}
+	sharedRecords := make([]map[string]interface{}, len(purityDatas))
 	var evs []map[string]any
 	errText := func(e error) string {
 		if e == nil {
@@ -410,14 +414,23 @@ func recordPurity(args []string) int {
 		t := &targets[ti]
 		switch op {
 		case 0: // parse again
-			obs, src := ParseObserve(t.text)
+			// the caller's own byte slice is parsed, again and again: parsing must leave it alone
+			if t.bytes == nil {
+				t.bytes = []byte(t.text)
+			}
+			obs, src := ParseObserveBytes(t.bytes)
+			textKept := string(t.bytes) == t.text
+			if !textKept {
+				obs = []any{"BROKEN", fmt.Sprintf("parsing changed the caller's text to %q", t.bytes)}
+				t.bytes = []byte(t.text)
+			}
 			_, perr := formula.ParseSourceCode([]byte(t.text))
 			if t.src == nil && src != nil {
 				if ot, _ := obs.([]any); len(ot) > 0 && ot[0] == "OK" {
 					t.src = src
 				}
 			}
-			evs = append(evs, map[string]any{"ev": "op", "key": fmt.Sprintf("parse|t%d", ti), "res": []any{obs, errText(perr)}, "tree_same": true,
+			evs = append(evs, map[string]any{"ev": "op", "key": fmt.Sprintf("parse|t%d", ti), "res": []any{obs, errText(perr)}, "tree_same": textKept,
 				"input": fmt.Sprintf("parse(%q) at step %d", t.text, k), "site": "purity:parse"})
 		case 1: // fields
 			if t.src == nil {
@@ -442,10 +455,31 @@ func recordPurity(args []string) int {
 			before := TreeDump(t.src)
 			r := formula.NewRunner()
 			if j < len(purityDatas) {
-				dm, err := data.BuildMap(purityDatas[j], h)
-				if err != nil {
-					fmt.Fprintln(os.Stderr, err)
-					return 2
+				var dm map[string]interface{}
+				if rng.Intn(2) == 0 {
+					// the caller's own record, handed to one fresh runner after another (locals of the previous
+					// evaluation removed): equal data as long as no evaluation changed what the record holds
+					if sharedRecords[j] == nil {
+						m, err := data.BuildMap(purityDatas[j], h)
+						if err != nil {
+							fmt.Fprintln(os.Stderr, err)
+							return 2
+						}
+						sharedRecords[j] = m
+					}
+					dm = sharedRecords[j]
+					for k := range dm {
+						if strings.HasPrefix(k, "$") {
+							delete(dm, k)
+						}
+					}
+				} else {
+					m, err := data.BuildMap(purityDatas[j], h)
+					if err != nil {
+						fmt.Fprintln(os.Stderr, err)
+						return 2
+					}
+					dm = m
 				}
 				r.SetThis(dm)
 			}
